@@ -1088,6 +1088,9 @@ def iter_model(it, fn, name, args, dest_ty, term, caller, depth):
         cur = it.read(args[0].cell, args[0].path)
         if isinstance(cur, IterV) and cur.kind in ("slice", "owned", "deque"):
             n = cur.a[2] - cur.a[1]
+            if "loose-hint" in cur.tags:
+                # a scripted iterator whose hint is legal but not exact (as a `filter` over a longer source answers): (0, Some(n + 5))
+                return Tup([Int(64, False, val=0), some(Int(64, False, val=n + 5))])
             return Tup([Int(64, False, val=n), some(Int(64, False, val=n))])
     return NotImplemented
 
